@@ -62,7 +62,7 @@ def run(tier):
     res = vlib.Result("C14", tier, "other")
     b = vlib.build_property("C14")
     rng = random.Random("c14/%d" % vlib.seed())
-    nh = 14 if tier == "quick" else 300
+    nh = 17 if tier == "quick" else 300
     histories = []
     # corpus-style fixed shapes first: A;A, A;B;A, mixed entry points, mixed accelerators
     def st(fam, sd, acc=None, entry="main", extra=()):
@@ -96,6 +96,12 @@ def run(tier):
         histories.append([st("single:pad_bc", sd, entry="convert_bytes"), st("single:pad_bc", sd, entry="convert_bytes"),
                           st("single:pad_bc", sd, entry="convert_bytes_ro"), st("single:pad_bc", sd, entry="convert")])
     histories.append([st("lut_mixed", 1, entry="convert_bytes"), st("lut_mixed", 1, entry="convert_bytes_ro"), st("lut_mixed", 1)])
+    # operators that are unrolled / split / merged by the graph optimiser (names and constants made during the rewrite)
+    histories.append([st("lstm", 1), st("lstm", 2), st("lstm", 1, entry="convert_bytes"), st("lstm", 1)])
+    histories.append([st("rewrite_patterns", 1, entry="convert_bytes"), st("rewrite_patterns", 2), st("rewrite_patterns", 1),
+                      st("single:conv_groups", 1), st("single:conv_groups", 1, entry="convert")])
+    histories.append([st("unsupported:pad_shared_tensor", 1, entry="convert_bytes"), st("unsupported:pad_shared_tensor", 1, entry="convert_bytes_ro"),
+                      st("unsupported:pad_shared_buffer", 1, entry="convert_bytes"), st("unsupported:pad_shared_buffer", 1)])
     while len(histories) < nh:
         n = rng.randrange(2, 6)
         h = []
